@@ -604,7 +604,15 @@ func c18Judge(c c18Case, o c18Outcome, st *vstat.Stats) error {
 			labels = append(labels, "second-crash-not-reached")
 		}
 	}
-	nontrivial := gap >= 2 || (c.Mode == "exit" && c.D >= 1)
+	// Non-trivial: the crash left an accepted block part-way through the
+	// pipeline, so the restart has something to repair: a backlog to reprocess
+	// (index > state) or a committed block whose subscribers were not notified.
+	// A trial that ends in a known finding's failed restart is executed and
+	// counted, but not as non-trivial: nothing behind the failed start was judged.
+	nontrivial := gap >= 1 || stateH > notifiedH
+	if rep := o.Report; rep != nil && rep.InitError != "" && c18KnownInitFailure(c, rep.InitError, gap, st) != "" {
+		nontrivial = false
+	}
 	st.Case(nontrivial, c.canonical(), labels...)
 	st.Sample(nontrivial, map[string]any{"case": c, "indexed": idx, "state": stateH, "results": resH,
 		"notified": notifiedH, "pre_deliveries": heightsOf(o.PreLog), "post_deliveries": heightsOf(o.PostLog)})
@@ -620,16 +628,8 @@ func c18Judge(c c18Case, o c18Outcome, st *vstat.Stats) error {
 	}
 	rep := o.Report
 	if rep.InitError != "" {
-		if st.Known("C18-restart-gap") && gap >= 2 && strings.Contains(rep.InitError, "cannot extract latest output block from invalid state") {
-			st.Exclude("C18-restart-gap")
-			return nil
-		}
-		if st.Known("C18-restart-nil-chain") && gap == 1 && strings.Contains(rep.InitError, "nil pointer dereference") {
-			st.Exclude("C18-restart-nil-chain")
-			return nil
-		}
-		if st.Known("C18-restart-compact") && strings.Contains(rep.InitError, "Compact start") {
-			st.Exclude("C18-restart-compact")
+		if id := c18KnownInitFailure(c, rep.InitError, gap, st); id != "" {
+			st.Exclude(id)
 			return nil
 		}
 		return fmt.Errorf("kind=restart-init-error index_minus_state=%d %s Initialize failed: %s", gap, where, rep.InitError)
@@ -701,9 +701,13 @@ func c18Judge(c c18Case, o c18Outcome, st *vstat.Stats) error {
 	}
 	if len(missing) > 0 {
 		known := st.Known("C18-undelivered-after-commit")
+		slack := uint64(0)
+		if c.Mode == "kill" {
+			slack = 1 // a durable write may precede its log line
+		}
 		for _, h := range missing {
 			// signature: state >= h at the crash (committed) and index > h (a later block indexed)
-			if !(stateH >= h && idx > h) {
+			if !(stateH+slack >= h && cLo+slack > h) {
 				known = false
 			}
 		}
@@ -742,6 +746,26 @@ func c18Judge(c c18Case, o c18Outcome, st *vstat.Stats) error {
 	return nil
 }
 
+// c18KnownInitFailure returns the id of the open known finding whose signature
+// a failed Initialize matches, or "".
+func c18KnownInitFailure(c c18Case, initError string, gap int64, st *vstat.Stats) string {
+	// index - state at the crash: exact in exit mode; in kill mode the kill
+	// may fall between a durable write and its log line, on either side
+	gapLo, gapHi := gap, gap
+	if c.Mode == "kill" {
+		gapLo, gapHi = gap-1, gap+1
+	}
+	switch {
+	case st.Known("C18-restart-gap") && gapHi >= 2 && strings.Contains(initError, "cannot extract latest output block from invalid state"):
+		return "C18-restart-gap"
+	case st.Known("C18-restart-nil-chain") && gapLo <= 1 && 1 <= gapHi && strings.Contains(initError, "nil pointer dereference"):
+		return "C18-restart-nil-chain"
+	case st.Known("C18-restart-compact") && strings.Contains(initError, "Compact start"):
+		return "C18-restart-compact"
+	}
+	return ""
+}
+
 func c18Run(c c18Case, st *vstat.Stats) error {
 	if err := c.valid(); err != nil {
 		return errInconclusive{"invalid case: " + err.Error()}
@@ -757,9 +781,23 @@ func c18Run(c c18Case, st *vstat.Stats) error {
 // generators
 // ---------------------------------------------------------------------------
 
-func c18GenExit(rt *rapid.T) c18Case {
+// c18GenExit draws an exit-mode case. outsideKnown: the known findings
+// C18-restart-nil-chain and C18-restart-gap are open, i.e. every crash that
+// leaves index > state is already known to end in a failed restart; two
+// thirds of the cases are then constructed outside that class (the crash
+// leaves index == state: after the state commit of block k with no backlog),
+// the rest still comes from the whole space so that the exclusion keeps being
+// exercised (and stops excluding as soon as the defect is repaired).
+func c18GenExit(rt *rapid.T, outsideKnown bool) c18Case {
 	c := c18Case{Mode: "exit"}
 	c.N = uint64(rapid.IntRange(6, maxChainLen).Draw(rt, "n"))
+	if outsideKnown && rapid.IntRange(0, 2).Draw(rt, "whole_space") != 0 {
+		c.Point = rapid.SampledFrom([]string{ptCommitted, ptChainAcc, ptNotified}).Draw(rt, "point")
+		c.K = uint64(rapid.IntRange(1, int(c.N)).Draw(rt, "k"))
+		c.Boot = rapid.IntRange(0, 3).Draw(rt, "boot") == 0
+		c.Race = rapid.Bool().Draw(rt, "race")
+		return c
+	}
 	c.Point = rapid.SampledFrom(allPoints).Draw(rt, "point")
 	c.K = uint64(rapid.IntRange(1, int(c.N)).Draw(rt, "k"))
 	maxD := c.N - c.K
@@ -795,7 +833,7 @@ func c18GenKill(rt *rapid.T) c18Case {
 	return c
 }
 
-const c18Rule = "a follower node (real vm.VM in snow.VM on pebble) accepts the producer's chain and dies by os.Exit inside hook point P of block k with backlog d (blocks indexed+queued but unprocessed), then a new process restarts on the same directory, reports, and catches up to N; non-trivial = backlog d>=1 or index-state>=2 at the crash; with probability 1/2 (accepter-side points) the last Accept call is still in progress at the crash, and with probability 1/3 the first restart dies too (inside the re-accept of a generated block of the backlog) so that a second restart is judged; distinct by (point,k,d,N,bootstrapping,race,second crash)"
+const c18Rule = "a follower node (real vm.VM in snow.VM on pebble) accepts the producer's chain and dies by os.Exit inside hook point P of block k with backlog d (blocks indexed+queued but unprocessed), then a new process restarts on the same directory, reports, and catches up to N; non-trivial = the crash left an accepted block part-way through the pipeline (index > state, or state committed but subscribers not notified) and the trial did not end in a known finding's failed restart; with probability 1/2 (accepter-side points) the last Accept call is still in progress at the crash, and with probability 1/3 the first restart dies too (inside the re-accept of a generated block of the backlog) so that a second restart is judged; distinct by (point,k,d,N,bootstrapping,race,second crash)"
 
 // ---------------------------------------------------------------------------
 // tests
@@ -816,7 +854,7 @@ func TestC18(t *testing.T) {
 	st.Assumption("the follower receives the blocks of a producer that never crashed; reference values (id, state root, execution results per height) are the producer's")
 	inconclusive := 0
 	rapid.Check(t, func(rt *rapid.T) {
-		c := c18GenExit(rt)
+		c := c18GenExit(rt, st.Known("C18-restart-nil-chain") && st.Known("C18-restart-gap"))
 		vstat.Run(rt, st, c, func() error {
 			err := c18Run(c, st)
 			if err != nil && c18Fail(rt, err) {
@@ -835,7 +873,7 @@ func TestC18(t *testing.T) {
 
 func TestC18Kill(t *testing.T) {
 	defer cleanupWork()
-	st := vstat.New(t, "C18", "SIGKILL of the follower at a generated delay after it started accepting 1..target (accepter optionally held at process-start(hold) until target is indexed); the crash position is read from the follower's hook-point log; non-trivial = index-state>=2 at the kill")
+	st := vstat.New(t, "C18", "SIGKILL of the follower at a generated delay after it started accepting 1..target (accepter optionally held at process-start(hold) until target is indexed); the crash position is read from the follower's hook-point log; non-trivial = the kill left an accepted block part-way through the pipeline (index > state, or committed but not notified)")
 	inconclusive := 0
 	rapid.Check(t, func(rt *rapid.T) {
 		c := c18GenKill(rt)
